@@ -92,6 +92,35 @@ def better_point(model, data, x, fun, bounds, fixed, init, rng, nstarts=3):
     return best_f, [float(v) for v in y]
 
 
+def is_local_optimum(model, data, x, fun, bounds, fixed, margin):
+    """Polish from the returned point only (L-BFGS-B then Nelder-Mead, no other starts): if that cannot improve the
+    objective by more than the margin the optimiser did converge - to a local minimum of a multi-modal likelihood."""
+    import numpy as np
+    from scipy.optimize import minimize
+
+    f_full = twice_nll_fn(model, data)
+    free = [i for i, fx in enumerate(fixed) if not fx]
+    base = np.array([float(v) for v in x], dtype=float)
+    fb = [(float(bounds[i][0]), float(bounds[i][1])) for i in free]
+
+    def f_free(z):
+        y = base.copy()
+        y[free] = z
+        return f_full(y)
+
+    best = f_free(base[free])
+    try:
+        r = minimize(f_free, base[free], method="L-BFGS-B", bounds=fb, options={"maxiter": 300, "ftol": 1e-13, "gtol": 1e-9})
+        best = min(best, float(r.fun))
+        z0 = r.x if r.fun <= best else base[free]
+        r2 = minimize(lambda z: f_free(np.array([min(max(z[k], fb[k][0]), fb[k][1]) for k in range(len(fb))])), z0, method="Nelder-Mead",
+                      options={"maxiter": 300 * len(free), "xatol": 1e-6, "fatol": 1e-9, "initial_simplex": None})
+        best = min(best, float(r2.fun))
+    except Exception:
+        pass
+    return fun - best <= margin
+
+
 def set_opt(name):
     import pyhf
     pyhf.set_backend(pyhf.tensorlib, name)
@@ -178,7 +207,10 @@ def check_generated(case, shard, mon, rng):
     for key, (x, fun) in results.items():
         m = MARGIN[key[0]]
         if fun - best > m:
-            shard.violate(mech(f"C05/config-disagreement:{key[0]}"), f"configuration {key} attains 2NLL={fun!r} but {best_key} attains {best!r} (difference {fun - best:.3g} > {m}); backend={pyhf.tensorlib.name} mask={mask_kind}", dict(case, results={str(k): v for k, v in results.items()}), "config_matrix")
+            name = f"C05/config-disagreement:{key[0]}"
+            if not extreme and is_local_optimum(model, data, x, fun, bounds, fixed_eff, m):
+                name = "C05/local-minimum-of-multimodal-likelihood"
+            shard.violate(mech(name), f"configuration {key} attains 2NLL={fun!r} but {best_key} attains {best!r} (difference {fun - best:.3g} > {m}); backend={pyhf.tensorlib.name} mask={mask_kind}", dict(case, results={str(k): v for k, v in results.items()}), "config_matrix")
         else:
             shard.ok("config_matrix")
             shard.maximum(f"config_spread_{key[0]}", fun - best)
@@ -191,7 +223,11 @@ def check_generated(case, shard, mon, rng):
             x2, f2 = run_fit(m2, data, list(init), list(bounds), list(fixed), poi_val)
             f2 = float(to_np(f2).reshape(-1)[0])
             if abs(f2 - best) > 1e-4 + (MARGIN["minuit"] if best_key[0] == "minuit" else 0):
-                shard.violate(mech("C05/backend-disagreement"), f"numpy/scipy attains 2NLL={f2!r}, {home}/{best_key} attains {best!r}; mask={mask_kind}", dict(case, backend=home), "config_matrix")
+                name = "C05/backend-disagreement"
+                worse_x = [float(v) for v in to_np(x2)] if f2 > best else results[best_key][0]
+                if not extreme and is_local_optimum(m2 if f2 > best else model, data, worse_x, max(f2, best), bounds, [f or (poi_val is not None and i == poi) for i, f in enumerate(fixed)], 1e-4):
+                    name = "C05/local-minimum-of-multimodal-likelihood"
+                shard.violate(mech(name), f"numpy/scipy attains 2NLL={f2!r}, {home}/{best_key} attains {best!r}; mask={mask_kind}", dict(case, backend=home), "config_matrix")
             else:
                 shard.ok("config_matrix")
                 shard.covered("cross_backend_compared", f"{home} vs numpy")
@@ -210,7 +246,10 @@ def check_generated(case, shard, mon, rng):
             x, fun = results[key]
             bf, bx = better_point(model, data, x, fun, bounds, fixed_eff, init, rng)
             if fun - bf > MARGIN[opt]:
-                shard.violate(mech(f"C05/not-optimal:{opt}"), f"fit {key} reported success with 2NLL={fun!r} but the feasible point {bx} has 2NLL={bf!r} (better by {fun - bf:.3g} > {MARGIN[opt]}); backend={pyhf.tensorlib.name} mask={mask_kind}", dict(case, x=x, better=bx), "better_point_search")
+                name = f"C05/not-optimal:{opt}"
+                if not extreme and is_local_optimum(model, data, x, fun, bounds, fixed_eff, MARGIN[opt]):
+                    name = "C05/local-minimum-of-multimodal-likelihood"
+                shard.violate(mech(name), f"fit {key} reported success with 2NLL={fun!r} but the feasible point {bx} has 2NLL={bf!r} (better by {fun - bf:.3g} > {MARGIN[opt]}); backend={pyhf.tensorlib.name} mask={mask_kind}", dict(case, x=x, better=bx), "better_point_search")
             else:
                 shard.ok("better_point_search")
                 shard.maximum(f"improvement_found_{opt}", fun - bf)
@@ -268,6 +307,9 @@ def check_closed_form(case, shard, mon, rng):
                     x, fun = run_fit(model, data, list(init), list(bounds), list(fixed), None, do_stitch=stitch, do_grad=grad)
                 except E.FailedMinimization as e:
                     shard.violate(f"C05/closed-form-fit-failed:{opt}", f"{kind} model with known optimum {ref_x}: fit {key} reported failure ({str(e)[:120]}); data={case['data']}", dict(case, key=list(key)), "closed_form")
+                    continue
+                except Exception as e:
+                    shard.violate(f"C05/closed-form-fit-raised:{opt}", f"{kind} model with known optimum {ref_x}: fit {key} raised {type(e).__name__}: {str(e)[:150]}; backend={pyhf.tensorlib.name}", dict(case, key=list(key)), "closed_form")
                     continue
                 fun = float(to_np(fun).reshape(-1)[0])
                 if fun - ref_fun > MARGIN[opt]:
